@@ -1547,7 +1547,7 @@ class Dependency:
         self.tablefile = tablefile
         self.instDir = instDir
         if distId == "None":
-            distId == None
+            distId = None
         self.distId = distId
         self.isOpt = isOptional
         self.shouldRecurse = shouldRecurse
